@@ -886,7 +886,8 @@ def _module_level_function2(x=None):
 
 
 _VT = {}
-VALIDATORS = {"nonempty_str": lambda v: isinstance(v, str) and len(v) > 0}
+# (the validator answers like re.fullmatch does: something truthy, or None - any falsy answer is a rejection)
+VALIDATORS = {"nonempty_str": lambda v: (isinstance(v, str) and len(v) > 0) or None}
 
 
 def apply_preparer(how, v):
